@@ -525,6 +525,142 @@ Proof.
   split; [now apply apply_hint_perm|now apply sorted_countb_spec].
 Qed.
 
+(* ------------------------------------------------------------------ flattening the result again *)
+
+Lemma strict_sorted_nodup l : StronglySorted trace_lt l -> NoDup (map e_trace l).
+Proof.
+  induction 1 as [|a l Hl IH Ha]; cbn [map]; constructor; [|exact IH].
+  intros Hin. apply in_map_iff in Hin as (b & Eb & Hb). rewrite Forall_forall in Ha. specialize (Ha b Hb).
+  unfold trace_lt, trace_ltb in Ha. rewrite Eb, lex_ltb_irrefl in Ha. discriminate.
+Qed.
+
+Section Again.
+Variables (A : Arith.tables) (T : Offsets.otable) (TT : BuildIAT.ttable).
+Hypothesis HA : agree A T.
+Variables (hd : bytes -> hdrp) (sp : bytes -> stdp) (ip : bytes -> ipay) (ap : bytes -> apay).
+
+Local Notation fb := (f_batch A (hp_of hd) (fp_of sp)).
+Local Notation pok := (pair_ok A (hp_of hd) (fp_of sp)).
+
+(* the batch list Flatten produces from a valid file under the category rule is again such a file,
+   with the same control figures *)
+Lemma result_is_valid_file inf inp out :
+  std_file inp -> inp <> [] ->
+  kinds_consistent inp -> Forall traces_nodup inp ->
+  Forall (fun b => Arith.validate_batch A (fb b) = Arith.ROk) inp ->
+  Forall (hdr_pair hd) (ids inp) ->
+  i_debit inf = sum_ids (db_e T sp) inp -> i_credit inf = sum_ids (cr_e T sp) inp ->
+  cat_rule inp ->
+  i_debit inf <= Arith.t_file_limit A -> i_credit inf <= Arith.t_file_limit A ->
+  Arith.t_file_limit A <= Arith.t_batch_limit A ->
+  flatten_spec inp out ->
+  std_file out /\ out <> [] /\ kinds_consistent out /\ Forall traces_nodup out /\
+  Forall (fun b => Arith.validate_batch A (fb b) = Arith.ROk) out /\
+  Forall (hdr_pair hd) (ids out) /\ Permutation (ids out) (ids inp) /\ cat_rule out.
+Proof.
+  intros Hstd Hne Hk Hnd Hv Hhp E2 E3 Hcat L1 L2 L3 Hs. unfold std_file in Hstd.
+  assert (Hne' : Forall nonempty inp) by (eapply Forall_impl; [|exact Hstd]; intros x (_ & H & _); now left).
+  destruct (flatten_conservation inp _ Hk Hs) as (P1 & P2).
+  destruct (flatten_wellformed inp _ Hnd Hne' Hs) as (Hw & _).
+  pose proof (flatten_pairs inp _ pok Hk Hs (valid_pairs_all A (hp_of hd) (fp_of sp) inp Hv)) as Hpok.
+  pose proof (flatten_pairs inp _ (hdr_pair hd) Hk Hs Hhp) as Hhdr.
+  assert (Hu : cat_uniform out) by (eapply cat_uniform_perm; [exact P1|exact P2|now apply cat_rule_uniform]).
+  assert (Hadv0 : adv_ids inp = []).
+  { clear -Hstd. induction Hstd as [|x l (_ & _ & Hx) _ IH]; unfold adv_ids in *; cbn [flat_map]; [reflexivity|].
+    rewrite IH. unfold adv_ids_of. now rewrite Hx. }
+  assert (Hyadv : forall y, In y out -> b_adv y = []).
+  { intros y Hy. destruct (b_adv y) as [|a q] eqn:E; [reflexivity|]. exfalso.
+    assert (Hin : In (b_sig y, a) (adv_ids out)) by (apply in_adv_ids; [exact Hy|rewrite E; now left]).
+    eapply Permutation_in in Hin; [|exact P2]. now rewrite Hadv0 in Hin. }
+  assert (Hyne : forall y, In y out -> b_entries y <> []).
+  { intros y Hy. rewrite Forall_forall in Hw. destruct (Hw y Hy) as (_ & [H|H]); [exact H|]. now rewrite (Hyadv y Hy) in H. }
+  (* kinds *)
+  assert (Hkind : Forall (fun b => b_kind b = Flatten.KStd) out).
+  { destruct Hs as (order & all & (Hperm & _) & Hall & ->).
+    apply Forall_finalize; [intros b m H; exact H|].
+    assert (Ho : Forall (fun b => b_kind b = Flatten.KStd) order).
+    { apply Forall_forall. intros b Hb. eapply Permutation_in in Hb; [|exact Hperm].
+      rewrite Forall_forall in Hstd. now destruct (Hstd b Hb). }
+    pose proof (run_P (fun b => b_kind b = Flatten.KStd) (fun m b Hm _ _ => eq_trans (consume_kind m b) Hm) order Ho) as Hr.
+    rewrite Forall_forall in Hr. apply Forall_forall. intros x Hx. apply in_map_iff in Hx as (y & <- & Hy).
+    cbn [sort_entries b_kind]. apply Hr. eapply Permutation_in; [exact Hall|exact Hy]. }
+  (* totals fit *)
+  assert (Hamt : forall p, In p (ids out) -> 0 <= e_amount (snd p)).
+  { intros p Hp. rewrite Forall_forall in Hpok. destruct (Hpok p Hp) as (_ & _ & Hst & _).
+    apply entry_static_spec in Hst as [Hst _]. apply validate_entry_facts in Hst as (_ & _ & Ha). now destruct (Ha eq_refl). }
+  assert (Hfit : Forall (fits A sp) out).
+  { apply Forall_forall. intros y Hy. unfold fits. rewrite <- (full_debit A T HA sp), <- (full_credit A T HA sp), (debits_sum T sp), (credits_sum T sp). split.
+    - eapply Z.le_trans; [apply (sum_member_le (db_e T sp) out y); [|exact Hy]|].
+      + intros p Hp. specialize (Hamt p Hp). unfold db_e, Offsets.db_amt, to_off_entry. cbn [Offsets.e_code Offsets.e_amount].
+        destruct (Offsets.mem _ (Offsets.t_credit T)); [lia|]. destruct (Offsets.mem _ (Offsets.t_debit T)); lia.
+      + rewrite (sum_ids_perm _ _ _ P1), <- E2. lia.
+    - eapply Z.le_trans; [apply (sum_member_le (cr_e T sp) out y); [|exact Hy]|].
+      + intros p Hp. specialize (Hamt p Hp). unfold cr_e, Offsets.cr_amt, to_off_entry. cbn [Offsets.e_code Offsets.e_amount].
+        destruct (Offsets.mem _ (Offsets.t_credit T)); lia.
+      + rewrite (sum_ids_perm _ _ _ P1), <- E3. lia. }
+  rewrite Forall_forall in Hw, Hkind, Hfit, Hpok.
+  split.
+  { apply Forall_forall. intros y Hy. split; [now apply Hkind|]. split; [now apply Hyne|now apply Hyadv]. }
+  split.
+  { intros ->. destruct inp as [|b0 inp']; [congruence|]. inversion Hstd as [|? ? (_ & Hb0 & _) _]; subst.
+    destruct (b_entries b0) as [|e0 q] eqn:E; [congruence|].
+    assert (Hin : In (b_sig b0, e0) (ids (b0 :: inp'))) by (apply in_ids; [now left|rewrite E; now left]).
+    eapply Permutation_in in Hin; [|apply Permutation_sym, P1]. destruct Hin. }
+  split; [intros a b Ha Hb _; now rewrite (Hkind a Ha), (Hkind b Hb)|].
+  split.
+  { apply Forall_forall. intros y Hy. destruct (Hw y Hy) as (Hso & _). unfold traces_nodup, traces. now apply strict_sorted_nodup. }
+  split.
+  { apply Forall_forall. intros y Hy. destruct (Hw y Hy) as (Hso & _). destruct (Hfit y Hy) as (F1 & F2).
+    apply pairs_valid; try assumption; [|now apply Hyne].
+    apply Forall_forall. intros p Hp. apply Hpok. unfold ids. apply in_flat_map. now exists y. }
+  split; [exact Hhdr|]. split; [exact P1|].
+  (* the category rule of the result *)
+  destruct Hu as (U1 & _). split; [|split].
+  - apply Forall_forall. intros y Hy. split.
+    + intros e e' He He'. apply (U1 (b_sig y, e) (b_sig y, e')); [now apply in_ids|now apply in_ids|reflexivity].
+    + rewrite (Hyadv y Hy). intros a a' [].
+  - intros a b Ha Hb Hsig. unfold head_cat.
+    destruct (b_entries a) as [|ea ra] eqn:Ea; [now apply Hyne in Ea|].
+    destruct (b_entries b) as [|eb rb] eqn:Eb; [now apply Hyne in Eb|].
+    apply (U1 (b_sig a, ea) (b_sig b, eb)); [apply in_ids; [exact Ha|rewrite Ea; now left]|apply in_ids; [exact Hb|rewrite Eb; now left]|exact Hsig].
+  - apply Forall_forall. intros y Hy. right. now apply Hyadv.
+Qed.
+
+(* flatten (flatten f): the second application succeeds like the first and consolidates nothing:
+   its result list is the list it was given (up to the file header's creation time, which the model
+   does not contain) *)
+Theorem reflatten inf inp out r' :
+  std_file inp -> inp <> [] -> i_hdr_ok inf = true ->
+  kinds_consistent inp -> Forall traces_nodup inp ->
+  Forall (fun b => Arith.validate_batch A (fb b) = Arith.ROk) inp ->
+  Forall (hdr_pair hd) (ids inp) ->
+  i_count inf = sum_ids cnt_e inp -> i_debit inf = sum_ids (db_e T sp) inp -> i_credit inf = sum_ids (cr_e T sp) inp ->
+  cat_rule inp ->
+  i_debit inf <= Arith.t_file_limit A -> i_credit inf <= Arith.t_file_limit A ->
+  Arith.t_file_limit A <= Arith.t_batch_limit A ->
+  flatten_spec inp out ->
+  flatten_full_spec A T TT hd sp ip ap inf out r' ->
+  (fst r' = FOk \/ (fst r' = FErrValidate /\ file_ctl_ok A (snd r') = false))
+  /\ Offsets.fc_count (af_ctl (snd r')) = i_count inf
+  /\ Offsets.fc_debit (af_ctl (snd r')) = i_debit inf
+  /\ Offsets.fc_credit (af_ctl (snd r')) = i_credit inf
+  /\ exists all', r' = finish A T TT hd sp ip ap inf all' /\ finalize all' = out
+       /\ Forall (fun x => created A T hd sp x /\ StronglySorted trace_lt (b_entries x)) (pre all').
+Proof.
+  intros Hstd Hne Hh Hk Hnd Hv Hhp E1 E2 E3 Hcat L1 L2 L3 Hs Hs'.
+  destruct (result_is_valid_file inf inp out Hstd Hne Hk Hnd Hv Hhp E2 E3 Hcat L1 L2 L3 Hs)
+    as (O1 & O2 & O3 & O4 & O5 & O6 & P1 & O7).
+  assert (E1' : i_count inf = sum_ids cnt_e out) by (rewrite E1; symmetry; now apply sum_ids_perm).
+  assert (E2' : i_debit inf = sum_ids (db_e T sp) out) by (rewrite E2; symmetry; now apply sum_ids_perm).
+  assert (E3' : i_credit inf = sum_ids (cr_e T sp) out) by (rewrite E3; symmetry; now apply sum_ids_perm).
+  destruct (flatten_succeeds A T TT HA hd sp ip ap inf out r' O1 O2 Hh O3 O4 O5 O6 E1' E2' E3' O7 L1 L2 L3 Hs') as (R1 & _ & R3 & R4 & R5).
+  destruct (flatten_valid A T TT HA hd sp ip ap inf out r' O1 Hh O3 O4 O5 O6 E2' E3' O7 L1 L2 L3 Hs') as (all' & Er & Hs2 & Hcv).
+  split; [exact R1|]. split; [exact R3|]. split; [exact R4|]. split; [exact R5|].
+  exists all'. split; [exact Er|]. split; [exact (flatten_idempotent inp out (finalize all') Hs Hs2)|exact Hcv].
+Qed.
+
+End Again.
+
 (* ------------------------------------------------------------------ files of standard AND IAT batches *)
 
 Lemma zsum_sumZ {X} (f : X -> Z) l : zsum f l = sumZ (map f l).
